@@ -6,6 +6,7 @@ CONSTANTS
   Unguarded = {}
   Unwrapped = {}
   DepthRestore = "wipe"
+  ContextDropped = FALSE
 INIT Init
 NEXT Next
 INVARIANTS
